@@ -64,6 +64,12 @@ def h_non_power_of_two(ctx, n):
     ctx.raises(ValueError, 'tt_to_qtt_rejects', teneva.tt_to_qtt, Y)
 
 
+def h_non_power_of_two_large(ctx, n):
+    """Mode sizes next to a large power of two (where log2(n) is within float
+    tolerance of an integer) are rejected by the index map as well."""
+    ctx.raises(ValueError, 'ind_map_rejects', teneva.ind_tt_to_qtt, np.array([0, 1]), n)
+
+
 def _relaxed_matrix_svd(ctx):
     """Exact-factorisation contract of matrix_svd (proved in C03): any (A T^-1, T)
     with the returned inner size equal to the number of columns/rows kept.  Here
@@ -180,6 +186,8 @@ def instances(tier):
         out.append({'func': 'h_index_maps_rev', 'params': {'d': d, 'q': q}})
     for n in (3, 6):
         out.append({'func': 'h_non_power_of_two', 'params': {'n': n}})
+    for n in (2 ** 17 + 1, 2 ** 30 + 1, 2 ** 40 - 1, 2 ** 52 + 1):
+        out.append({'func': 'h_non_power_of_two_large', 'params': {'n': n}})
     for d, q, r in ([(2, 1, 2), (2, 2, 2), (3, 1, 2)] if quick else [(2, 1, 2), (2, 2, 2), (3, 1, 2), (2, 3, 2), (3, 2, 2), (2, 2, 3)]):
         out.append({'func': 'h_convert', 'params': {'d': d, 'q': q, 'r': r}})
     for r1, r2 in [(1, 2), (2, 2), (1, 1)]:
